@@ -3,5 +3,6 @@ CONSTANTS
   HistLen = 3
   Rich = FALSE
 INVARIANT InvReadOnly
+INVARIANT InvOuts
 INVARIANT InvDomain
 CHECK_DEADLOCK FALSE
